@@ -66,6 +66,17 @@ class Inst(object):
         return "PRIV"
 
 
+class OtherInst(object):
+    """A second registered instance with a different attribute set (what resolves on Inst must not resolve here)."""
+
+    def __init__(self, log):
+        self._log = log
+
+    def only_here(self, *a):
+        self._log.append(("only_here", list(a), {}))
+        return "ONLY"
+
+
 class DispInst(object):
     """Instance with its own _dispatch that raises."""
 
@@ -175,6 +186,8 @@ class World(object):
             self.instance = Inst(log)
         elif instance == "dispatching":
             self.instance = DispInst(log)
+        elif instance == "other":
+            self.instance = OtherInst(log)
         if self.instance is not None:
             self.d.register_instance(self.instance)
         self.dispatch_method = None
